@@ -245,6 +245,16 @@ def stepEffect (st : Store) : List String → Option (Effect × String)
   | ["shifted", i, b] => do
     let i ← parseNat? i; let g ← st[i]?; let b ← parseRatList? b
     pure (Effect.push (g.shift b), s!"ok {st.length}")
+  | ["shiftf", i, b] => do
+    -- float64 arithmetic: every stored sum is rounded to nearest-even (C10: shifts that are absorbed)
+    let i ← parseNat? i; let g ← st[i]?; let b ← parseRatList? b
+    pure (Effect.update i (g.shiftR roundF64 b), "ok")
+  | ["shiftedf", i, b] => do
+    let i ← parseNat? i; let g ← st[i]?; let b ← parseRatList? b
+    pure (Effect.push (g.shiftR roundF64 b), s!"ok {st.length}")
+  | ["fl", x] => do
+    let x ← parseRat? x
+    pure (Effect.keep, "ok " ++ showRat (roundF64 x))
   | ["reverse", i] => do
     let i ← parseNat? i; let g ← st[i]?
     pure (Effect.update i g.reverse, "ok")
